@@ -393,8 +393,10 @@ _REGISTRY = selector_map.SelectorMap()
 # Maps registered functions or classes to their associated Configurable object.
 _INVERSE_REGISTRY = {}
 
-# Maps old selector names to new selector names for selectors that are renamed.
-# This is used for handling renaming of class method modules.
+# Maps (function, old selector name) to the new selector name for selectors that
+# are renamed. This is used for handling renaming of class method modules. (The
+# old name alone doesn't identify the function: once freed it may be taken by
+# another function, e.g. a same-named method of another class.)
 _RENAMED_SELECTORS = {}
 
 # Maps tuples of `(scope, selector)` to associated parameter values. This
@@ -530,7 +532,7 @@ def _find_registered_methods(cls, selector):
       new_selector = selector + '.' + method_info.name
       method_info = method_info._replace(
           module=selector, selector=new_selector, is_method=True)
-      _RENAMED_SELECTORS[old_selector] = new_selector
+      _RENAMED_SELECTORS[method, old_selector] = new_selector
       _REGISTRY.pop(old_selector)
       _REGISTRY[new_selector] = method_info
       _INVERSE_REGISTRY[method] = method_info
@@ -1564,7 +1566,7 @@ def _make_gin_wrapper(fn, fn_or_cls, name, selector, allowlist, denylist):
   @functools.wraps(fn)
   def gin_wrapper(*args, **kwargs):
     """Supplies fn with parameter values from the configuration."""
-    current_selector = _RENAMED_SELECTORS.get(selector, selector)
+    current_selector = _RENAMED_SELECTORS.get((fn_or_cls, selector), selector)
     new_kwargs = _get_bindings(current_selector)
     gin_bound_args = list(new_kwargs.keys())
     scope_str = '/'.join(current_scope())
